@@ -476,3 +476,33 @@ pub(crate) fn c18_k4_contract_reload_id_update() {
 }
 // NOTE: a caller harness with `#[kani::stub_verified(ReloadId::update)]` (ReloadWatcher::reloaded against update's contract)
 // makes Kani 0.68 panic in reachability.rs:425 (internal compiler error), so the contract is proved but not used modularly.
+
+// ---- C01 — a handle stays valid and readable: accessors agree with the entry they view ------------------------------------------
+fn handle_accessors(dynamic: bool) {
+    let v: u8 = nd();
+    let e = CacheEntry::new(A(v), "a".into(), || dynamic);
+    let u = e.inner();
+    let h = u.downcast_ref_ok::<A>();
+    assert!(&**h.id() == "a" && &**u.id() == "a", "C01 a handle carries the id of its entry");
+    assert!(h.as_untyped() as *const UntypedHandle as *const () == u as *const UntypedHandle as *const (), "C01 typed and untyped views are the same handle");
+    assert!(h.read().0 == v && h.read().0 == v, "C01 a handle stays readable (read after read)");
+    assert!(u.is::<A>() && !u.is::<B>());
+    match u.read().downcast::<A>() { Ok(g) => assert!(g.0 == v), Err(_) => assert!(false, "C13 the creation type downcasts") }
+    assert!(crate::amv::lock_counts() == (0, 0), "C07 temporaries release the lock");
+    std::mem::forget(e);
+}
+#[derive(Clone, Copy)]
+struct Cp(u8);
+impl Storable for Cp {}
+fn copied_cloned() {
+    let v: u8 = nd();
+    let e = CacheEntry::new(Cp(v), "a".into(), || true);
+    let h = e.inner().downcast_ref_ok::<Cp>();
+    assert!(h.copied().0 == v && h.cloned().0 == v, "copied / cloned return the stored value");
+    std::mem::forget(e);
+}
+instances! {
+    c01_k7_handle_accessors_static => handle_accessors(false);
+    c01_k7_handle_accessors_dynamic => handle_accessors(true);
+    c01_k7_copied_cloned => copied_cloned();
+}
